@@ -59,3 +59,7 @@ func verifNotFromPipe(r *readCommand) bool { return false }
 func VerifNewHealthHandler() *HealthHandler {
 	return NewHealthHandler(&user.User{Name: "DTAIL-HEALTH"})
 }
+
+func VerifNewServerHandlerWith(catLimiter, tailLimiter chan struct{}) *ServerHandler {
+	return NewServerHandler(&user.User{Name: "u"}, catLimiter, tailLimiter)
+}
